@@ -50,6 +50,41 @@ def kernelPart (alpha β₁ β₂ lam : R) (nCues : Nat) (files : List (List (Ev
 
 end Kernel
 
+/-! ## Micro-step semantics: the unit of interleaving
+
+One micro-step = one weight row processing one event (the body of
+`for ii in range(start, end)`); concurrent kernel calls interleave at this
+granularity (or finer — see C02 for the data-race-freedom argument that makes
+this granularity sufficient). -/
+
+structure MicroStep where
+  part : Nat            -- which kernel call (thread / prange iteration) performs it
+  file : Nat            -- index of the chunk file
+  row : Nat             -- weight row (outcome id)
+  ev : Event Nat Nat
+deriving Repr
+
+section Exec
+variable {R : Type} [Add R] [Sub R] [Mul R] [Zero R]
+
+def execSteps (alpha β₁ β₂ lam : R) (nCues : Nat) (w : Array R) (s : List MicroStep) : Array R :=
+  s.foldl (fun w st => kernelRowEvent alpha β₁ β₂ lam nCues w st.row st.ev.cues st.ev.outcomes) w
+
+/-- program of one part over one file: every event in order, inside an event
+    every row of the part in order -/
+def fileProgram (part file : Nat) (rows : List Nat) (es : List (Event Nat Nat)) : List MicroStep :=
+  es.flatMap (fun e => rows.map (fun o => ⟨part, file, o, e⟩))
+
+/-- program of one part: every file in order (file indices from `k`) -/
+def partProgramFrom (part : Nat) (rows : List Nat) : Nat → List (List (Event Nat Nat)) → List MicroStep
+  | _, [] => []
+  | k, es :: rest => fileProgram part k rows es ++ partProgramFrom part rows (k + 1) rest
+
+def partProgram (part : Nat) (rows : List Nat) (files : List (List (Event Nat Nat))) : List MicroStep :=
+  partProgramFrom part rows 0 files
+
+end Exec
+
 /-! ## Partitioners -/
 
 /-- `slice_list(list_, len_sublists)` (ndl.py:541-567) for `len_sublists ≥ 1`.
